@@ -82,6 +82,8 @@ func cmdG(args []string) {
 	memcheck := fs.Bool("memcheck", true, "assert every access in bounds")
 	debug := fs.Bool("debug", false, "debug output")
 	logdir := fs.String("logdir", "", "write every query here")
+	recFails := fs.String("recursion-fails", "", "exceeding the recursion bound is a violation of this obligation id")
+	maxdepth := fs.Int("maxdepth", 60, "recursion depth bound")
 	fs.Parse(args)
 
 	ov := map[string][]byte{}
@@ -127,6 +129,8 @@ func cmdG(args []string) {
 		x := gofe.NewExec(prog, m)
 		x.Cfg.Unwind = *unwind
 		x.Cfg.MapReverse = *mapRev
+		x.Cfg.RecursionFails = *recFails
+		x.Cfg.MaxDepth = *maxdepth
 		st := time.Now()
 		r := HarnessResult{Name: h.Name(), Unwind: *unwind}
 		func() {
